@@ -9,7 +9,7 @@ mkdir -p "$T/coq/theories" "$T/b"
 cp -r /verif/coq/theories/Model /verif/coq/theories/Extract "$T/coq/theories/"
 cd "$T/coq"
 find . -name '*.vo' -o -name '*.vos' -o -name '*.vok' -o -name '*.glob' -o -name '.*.aux' | xargs rm -f
-for f in Base Tables Chars Tokenizer Tree Reader CLO Buffer Args Views Edit; do
+for f in Base Tables Chars Tokenizer Tree Reader CLO Buffer Args Views Edit Regex; do
   timeout 600 coqc -Q theories/Model TexModel theories/Model/$f.v
 done
 timeout 600 coqc -Q theories/Model TexModel -Q theories/Extract TexExtract theories/Extract/Extract.v
